@@ -63,7 +63,7 @@ var c11Args = []struct {
 	{"wrapped netty.ErrChannelClosed", fmt.Errorf("peer gone: %w", netty.ErrChannelClosed)},
 }
 
-var c11Closers = []string{"user", "read-loop-handler", "parent-context", "read-failure", "sender-write-failure", "holder-closeall", "shutdown-busy-sender", "close-before-serve"}
+var c11Closers = []string{"user", "read-loop-handler", "parent-context", "read-failure", "sender-write-failure", "holder-closeall", "shutdown-busy-sender", "close-before-serve", "close-gives-up-on-stalled-sender"}
 
 var c11Entries = []string{"Write1", "Writev", "CtxWrite1", "CtxWritev", "Writer().Write", "ReadFrom", "Write"}
 
@@ -144,6 +144,9 @@ func runC11(c *core.Ctx) {
 				if (closer == "sender-write-failure" || closer == "shutdown-busy-sender") && md.m == mon.Sync {
 					continue
 				}
+				if closer == "close-gives-up-on-stalled-sender" && (md.m != mon.NonBlock || ai%3 != 0) {
+					continue // bounded-wait channels only (about a second per cell: a third of the arguments)
+				}
 				// closers that do not take an argument run once (arg index 0)
 				if (closer == "parent-context" || closer == "read-failure" || closer == "sender-write-failure") && ai != 0 {
 					continue
@@ -190,6 +193,24 @@ func runC11(c *core.Ctx) {
 			}
 		}
 	}
+	// Channel.Write issued while a Close is pending behind a stalled sender: it waits for the close (by design) and then
+	// reports it - it never reports success for a message that was dropped
+	di := 0
+	for rep := 0; rep < c.Scale(1, 10); rep++ {
+		for _, md := range modes[1:] {
+			for _, arg := range c11Args[:2] {
+				di++
+				if !c.Mine(di) {
+					continue
+				}
+				id := fmt.Sprintf("write-during-drain/%s/q%d/%s/r%d", md.m, md.q, arg.name, rep)
+				if !c.Case(id) {
+					continue
+				}
+				c11WriteDuringDrain(c, id, md.m, md.q, arg.name, arg.err)
+			}
+		}
+	}
 	// concurrent variant
 	total := c.Scale(400, 6000)
 	for t := 0; t < total; t++ {
@@ -214,6 +235,12 @@ func c11CloseBy(rig *mon.Rig, closer string, arg error, cancel context.CancelFun
 		// Close is synchronous: it has returned when the call returns, whatever it did
 		rig.Ch.Close(arg)
 		rig.Ex.WaitOutstanding(0, 2*time.Second)
+		return true
+	case "close-gives-up-on-stalled-sender":
+		// the sender is stuck inside the transport; a bounded-wait Close gives up waiting after about a second and closes
+		rig.Ch.Write1(mon.Payload(14, 0, 64))
+		rig.S.Await("tV0", 1, 3*time.Second)
+		rig.Ch.Close(arg)
 		return true
 	case "close-before-serve":
 		// the connection is rejected while it is still being set up: Close on a channel that was never served
@@ -262,6 +289,9 @@ func c11Grid(c *core.Ctx, id string, m mon.Mode, q int, closer, argName string, 
 	if closer == "close-before-serve" {
 		opts.NoServe = true
 	}
+	if closer == "close-gives-up-on-stalled-sender" {
+		opts.Plan = []mon.Step{{At: "tV0", Occ: 1, Kind: mon.Gate, Until: "released", UntilCount: 1, Timeout: 8 * time.Second}}
+	}
 	if closer == "shutdown-busy-sender" {
 		opts.Plan = []mon.Step{{At: "tV0", Occ: 0, Kind: mon.Sleep, D: 2 * time.Millisecond}}
 	}
@@ -302,6 +332,7 @@ func c11Grid(c *core.Ctx, id string, m mon.Mode, q int, closer, argName string, 
 		calls = append(calls, call{7, seq, len(buf), err})
 		seq++
 	}
+	rig.S.Mark("released")
 	// let any sender action those calls may have started run to completion (a synchronous Close that returned without
 	// closing the transport leaves the read loop parked: that action cannot be waited for)
 	rest := 0
@@ -421,6 +452,56 @@ func c11CloseWindow(c *core.Ctx, id string, m mon.Mode, q int, argName string, a
 				fmt.Sprintf("%s began after the channel's Close(%s) had closed the transport (Close was still inside transport.Close) and returned nil; its payload never reached the transport; mode=%s Q=%d", c11Entries[cl.entry], argName, m, q),
 				map[string]interface{}{"ops": mon.OpString(ops), "marks": rig.S.LogString(40)})
 		}
+	}
+}
+
+func c11WriteDuringDrain(c *core.Ctx, id string, m mon.Mode, q int, argName string, arg error) {
+	plan := []mon.Step{{At: "tV0", Occ: 1, Kind: mon.Gate, Until: "released", UntilCount: 1, Timeout: 8 * time.Second}}
+	rig := mon.NewRig(mon.RigOpts{Mode: m, Queue: q, QuietTail: true, Plan: plan})
+	defer rig.Dispose()
+	defer rig.S.Mark("released")
+	rig.Ch.Write1(mon.Payload(14, 0, 64))
+	if !rig.S.Await("tV0", 1, 3*time.Second) {
+		c.Inconclusive(id, "sender never reached the transport")
+		return
+	}
+	closed := make(chan struct{})
+	go func() { defer close(closed); rig.Ch.Close(arg) }()
+	for i := 0; i < 5000 && rig.Ch.IsActive(); i++ {
+		time.Sleep(100 * time.Microsecond)
+	}
+	done := make(chan error, 1)
+	go func() { done <- rig.Ch.Write(mon.Payload(6, 0, 64)) }()
+	time.Sleep(20 * time.Millisecond)
+	rig.S.Mark("released")
+	select {
+	case <-closed:
+	case <-time.After(10 * time.Second):
+		c.Inconclusive(id, "watchdog: Close did not complete")
+		return
+	}
+	var err error
+	select {
+	case err = <-done:
+	case <-time.After(5 * time.Second):
+		c.Inconclusive(id, "watchdog: Channel.Write did not return after the Close completed")
+		return
+	}
+	rig.Ex.WaitOutstanding(0, 5*time.Second)
+	c.Count("writes_during_pending_close", 1)
+	c.Sig("write-during-drain", m, q, argName, err == nil)
+	_, wire := rig.T.Snapshot()
+	recs, _ := mon.ParseWire(wire)
+	sent := false
+	for _, r := range recs {
+		if r.W == 6 {
+			sent = true
+		}
+	}
+	if err == nil && !sent {
+		c.Violation("C11:success-for-discarded-data-during-close:Write:"+modeClass(m), id,
+			fmt.Sprintf("Channel.Write issued while Close(%s) was waiting for the stalled sender returned nil, and the message never reached the transport; mode=%s Q=%d", argName, m, q),
+			map[string]interface{}{"marks": rig.S.LogString(40)})
 	}
 }
 
